@@ -237,7 +237,7 @@ func (s *sim) armCrash() {
 		return
 	}
 	n := cands[t.Choose("crash.victim", len(cands))]
-	mode := t.Weighted("crash.mode", 2, 5, 2, 1, 1)
+	mode := t.Weighted("crash.mode", 2, 5, 2, 1, 1, 2)
 	var sites [nSites]bool
 	desc := ""
 	switch mode {
@@ -259,6 +259,13 @@ func (s *sim) armCrash() {
 			sites[i] = i != siteQuiescent
 		}
 		desc = "any"
+	case 5:
+		// double crash: first while a record of the round WAL is written but not yet synced - the crash image
+		// keeps the record's header and junk where its payload should be (torn sectors) - then, soon after the
+		// restart, the same validator crashes again. What it signed in between must survive the second recovery.
+		sites[siteWALWriteAfter], sites[siteWALSyncMid] = true, true
+		desc = "wal-junk-then-again"
+		n.forceJunk, n.recrash = true, true
 	}
 	k := 1 + t.Choose("crash.nth", 40)
 	s.mu.Lock()
